@@ -524,3 +524,158 @@ def regenerate():
     if write_if_changed(os.path.join(COQDIR, "gen", "ComplexOps.v"), render_complex_ops()):
         changed.append("gen/ComplexOps.v")
     return changed, d
+
+# ============================================================================ complex functions (C14)
+# The formula files src/complex/{elementary,trigonometric,hyperbolic}.rs (+ abs/arg of mod.rs) are straight-line
+# compositions of real libm calls and complex operators.  They are translated, with a two-sorted (R / C) type
+# inference, into gen/CFunOps.v over the real-number model of Model/CFun.v; Proofs/CFunGen.v proves every
+# regenerated definition convertible with the hand-written one.
+CF_FILES = ["src/complex/elementary.rs", "src/complex/trigonometric.rs", "src/complex/hyperbolic.rs"]
+CF_CMETH_C = {"sqrt": "csqrt", "ln": "cln", "exp": "cexp", "sin": "csin", "cos": "ccos", "tan": "ctan", "sec": "csec", "csc": "ccsc", "cot": "ccot",
+              "asin": "casin", "acos": "cacos", "atan": "catan", "asec": "casec", "acsc": "cacsc", "acot": "cacot",
+              "sinh": "csinh", "cosh": "ccosh", "tanh": "ctanh", "sech": "csech", "csch": "ccsch", "coth": "ccoth",
+              "asinh": "casinh", "acosh": "cacosh", "atanh": "catanh", "asech": "casech", "acsch": "cacsch", "acoth": "cacoth", "conj": "cconj"}
+CF_CMETH_R = {"abs": "cabs", "arg": "arg", "abs_sqr": "abs_sqr"}
+CF_RFUN = {"sqrt": "sqrt", "cos": "cos", "sin": "sin", "exp": "exp", "ln": "ln", "cosh": "cosh", "sinh": "sinh"}
+
+class _CfParser:
+    TOK = re.compile(r"\s*(f64::[a-z0-9_]+|Complex::<f64>::one\(\)|Cmplx::one\(\)|Complex::new|Cmplx::new|Complex::<f64>::new|[0-9]+\.[0-9]*|[0-9]+|[A-Za-z_][A-Za-z0-9_]*|\.|\+|-|\*|/|\(|\)|,|&)")
+    def __init__(self, s, env, name):
+        self.t, i, self.env, self.name = [], 0, env, name
+        s = s.strip()
+        while i < len(s):
+            m = self.TOK.match(s, i)
+            if not m or m.end() == i: raise TieBroken("translator(cfun): %s: cannot tokenize at %r" % (name, s[i:i+30]))
+            self.t.append(m.group(1)); i = m.end()
+        self.i = 0
+    def peek(self, k=0): return self.t[self.i + k] if self.i + k < len(self.t) else None
+    def eat(self, x=None):
+        tok = self.peek()
+        if x is not None and tok != x: raise TieBroken("translator(cfun): %s: expected %r got %r" % (self.name, x, tok))
+        self.i += 1; return tok
+    # each production returns (type 'R'|'C', gallina text)
+    def expr(self):
+        l = self.term()
+        while self.peek() in ("+", "-"):
+            op = self.eat(); r = self.term(); l = self.binop(op, l, r)
+        return l
+    def term(self):
+        l = self.unary()
+        while self.peek() in ("*", "/"):
+            op = self.eat(); r = self.unary(); l = self.binop(op, l, r)
+        return l
+    def binop(self, op, l, r):
+        (tl, a), (tr, b) = l, r
+        if tl == "R" and tr == "R": return ("R", "(%s %s %s)" % (a, op, b))
+        if tl == "C" and tr == "C": return ("C", "(%s %s %s)" % ({"+": "cadd", "-": "csub", "*": "cmul", "/": "cdiv"}[op], a, b))
+        if tl == "C" and tr == "R" and op in "+-*": return ("C", "(%s %s %s)" % ({"+": "cadd_r", "-": "csub_r", "*": "cmul_r"}[op], a, b))
+        if tl == "R" and tr == "C" and op == "*": return ("C", "(cmul_r %s %s)" % (b, a))      # f64 * Complex delegates to Complex * f64
+        raise TieBroken("translator(cfun): %s: unsupported operand types %s %s %s" % (self.name, tl, op, tr))
+    def unary(self):
+        if self.peek() == "-":
+            self.eat(); t, a = self.unary()
+            return (t, "(- %s)" % a) if t == "R" else ("C", "(cneg %s)" % a)
+        if self.peek() == "*" or self.peek() == "&":       # deref / borrow are transparent
+            self.eat(); return self.unary()
+        return self.postfix()
+    def postfix(self):
+        tok = self.eat()
+        if tok == "(":
+            e = self.expr(); self.eat(")")
+        elif tok in ("Complex::new", "Cmplx::new", "Complex::<f64>::new"):
+            self.eat("("); (ta, a) = self.expr(); self.eat(","); (tb, b) = self.expr(); self.eat(")")
+            if ta != "R" or tb != "R": raise TieBroken("translator(cfun): %s: Complex::new of non-real parts" % self.name)
+            e = ("C", "(%s, %s)" % (a, b))
+        elif tok in ("Cmplx::one()", "Complex::<f64>::one()"): e = ("C", "cone")
+        elif tok.startswith("f64::"):
+            f = tok[5:]; self.eat("("); args = [self.expr()]
+            while self.peek() == ",": self.eat(); args.append(self.expr())
+            self.eat(")"); e = self.rcall(f, args)
+        elif re.match(r"[0-9]", tok):
+            from fractions import Fraction
+            q = Fraction(tok)
+            e = ("R", str(q.numerator) if q.denominator == 1 else "(%d / %d)" % (q.numerator, q.denominator))
+        elif tok in self.env: e = self.env[tok]
+        else: raise TieBroken("translator(cfun): %s: unknown identifier %r" % (self.name, tok))
+        while self.peek() == ".":
+            self.eat(); m = self.eat()
+            if m in ("real", "imag") and self.peek() != "(":
+                if e[0] != "C": raise TieBroken("translator(cfun): %s: .%s of a real" % (self.name, m))
+                e = ("R", "(%s %s)" % ("re" if m == "real" else "im", e[1])); continue
+            self.eat("("); args = []
+            if self.peek() != ")":
+                args.append(self.expr())
+                while self.peek() == ",": self.eat(); args.append(self.expr())
+            self.eat(")")
+            if m == "clone": continue
+            if e[0] == "C":
+                if m in CF_CMETH_C and not args: e = ("C", "(%s %s)" % (CF_CMETH_C[m], e[1]))
+                elif m in CF_CMETH_R and not args: e = ("R", "(%s %s)" % (CF_CMETH_R[m], e[1]))
+                elif m == "pow" and len(args) == 1 and args[0][0] == "C": e = ("C", "(cpow %s %s)" % (e[1], args[0][1]))
+                elif m == "powf" and len(args) == 1 and args[0][0] == "R": e = ("C", "(cpowf %s %s)" % (e[1], args[0][1]))
+                elif m == "log" and len(args) == 1 and args[0][0] == "C": e = ("C", "(clog %s %s)" % (e[1], args[0][1]))
+                else: raise TieBroken("translator(cfun): %s: unknown complex method .%s/%d" % (self.name, m, len(args)))
+            else:
+                e = self.rcall(m, [e] + args)
+        return e
+    def rcall(self, f, args):
+        if any(t != "R" for t, _ in args): raise TieBroken("translator(cfun): %s: real function %s of a complex argument" % (self.name, f))
+        if f in CF_RFUN and len(args) == 1: return ("R", "(%s %s)" % (CF_RFUN[f], args[0][1]))
+        if f == "powf" and len(args) == 2: return ("R", "(Rpower %s %s)" % (args[0][1], args[1][1]))
+        raise TieBroken("translator(cfun): %s: unknown real function %s/%d" % (self.name, f, len(args)))
+
+def render_cfun_ops():
+    L = ["(* gen/CFunOps.v -- the formulas of src/complex/{elementary,trigonometric,hyperbolic}.rs, REGENERATED from /repo/src by",
+         "   driver/translate.py on every check run, over the real-number model of Model/CFun.v (libm call -> real function). *)",
+         "From Coq Require Import Reals.", "From OV Require Import Model.CFun.", "Local Open Scope R_scope.", ""]
+    names = []
+    for rel in CF_FILES:
+        src = strip_rust_comments(_src(rel))
+        for m in re.finditer(r"pub\s+fn\s+([a-z_0-9]+)\s*\(([^)]*)\)\s*->\s*Complex(?:::)?<f64>", src):
+            fn, params = m.group(1), m.group(2)
+            body = fn_body(src, re.escape(m.group(0)), None, fn)
+            env, gargs = {"I": ("C", "ci"), "PI_2": ("R", "(PI / 2)")}, []
+            for p in [x.strip() for x in params.split(",") if x.strip()]:
+                if p == "&self": env["self"] = ("C", "z"); gargs.append("(z : C)"); continue
+                pm = re.match(r"^([a-z_][a-z0-9_]*)\s*:\s*(&?\s*Complex(?:::)?<f64>|f64)$", p)
+                if not pm: raise TieBroken("translator(cfun): %s: unexpected parameter %r" % (fn, p))
+                ty = "R" if pm.group(2) == "f64" else "C"
+                gname = {"w": "w", "x": "x", "b": "b", "r": "r", "theta": "theta"}.get(pm.group(1), pm.group(1))
+                env[pm.group(1)] = (ty, gname); gargs.append("(%s : %s)" % (gname, ty))
+            lines = []
+            stmts = [s.strip() for s in body.split(";") if s.strip()]
+            for k, s in enumerate(stmts):
+                lm = re.match(r"^let\s+([a-z_][a-z0-9_]*)\s*(?::\s*[A-Za-z0-9_<>:]+)?\s*=\s*(.*)$", s, re.S)
+                if lm:
+                    p = _CfParser(lm.group(2), env, fn); t, txt = p.expr()
+                    if p.peek() is not None: raise TieBroken("translator(cfun): %s: trailing tokens in %r" % (fn, s))
+                    v = lm.group(1) + "_"
+                    lines.append("let %s := %s in" % (v, txt)); env[lm.group(1)] = (t, v)
+                else:
+                    if k != len(stmts) - 1: raise TieBroken("translator(cfun): %s: unexpected statement %r" % (fn, s))
+                    p = _CfParser(s, env, fn); t, txt = p.expr()
+                    if p.peek() is not None: raise TieBroken("translator(cfun): %s: trailing tokens in %r" % (fn, s))
+                    if t != "C": raise TieBroken("translator(cfun): %s: result is not complex" % fn)
+                    lines.append(txt)
+            L.append("Definition t_c%s %s : C :=\n  %s." % (fn, " ".join(gargs), "\n  ".join(lines)))
+            names.append(fn)
+    # abs / arg of mod.rs: fixed shapes, checked textually
+    msrc = strip_rust_comments(_src("src/complex/mod.rs"))
+    ab = fn_body(msrc, r"pub fn abs\(&self\) -> f64", None, "abs")
+    if re.sub(r"\s+", "", ab) != "f64::sqrt(self.abs_sqr())": raise TieBroken("translator(cfun): unexpected body of Complex::abs: %r" % ab.strip())
+    ag = fn_body(msrc, r"pub fn arg\(&self\) -> f64", None, "arg")
+    if re.sub(r"\s+", "", ag) != "self.imag.atan2(self.real)": raise TieBroken("translator(cfun): unexpected body of Complex::arg: %r" % ag.strip())
+    L.append("Definition t_cabs (z : C) : R := sqrt (abs_sqr z).")
+    L.append("Definition t_arg (z : C) : R := atan2 (im z) (re z).")
+    L.append("")
+    return "\n".join(L), names
+
+_regen_cx = regenerate
+def regenerate():
+    changed, d = _regen_cx()
+    if os.path.exists(os.path.join(COQDIR, "Model", "CFun.v")) and os.path.getsize(os.path.join(COQDIR, "Model", "CFun.v")) > 200:
+        text, names = render_cfun_ops()
+        if write_if_changed(os.path.join(COQDIR, "gen", "CFunOps.v"), text):
+            changed.append("gen/CFunOps.v")
+        d["cfun_functions"] = names
+    return changed, d
